@@ -121,6 +121,50 @@ fn parse_via(wk: &mut Worker, text: &str) -> J {
     }
 }
 
+/// resolver over records addressed by a key of their own (they need not carry an `id` tag)
+pub struct KeyedResolver {
+    pub db: Vec<(String, Dict)>,
+}
+
+impl PathResolver for KeyedResolver {
+    fn resolve_for(&self, _root: &Dict, _path: &Path) -> Value {
+        Value::Null
+    }
+    fn resolve(&self, _path: &Path) -> Value {
+        Value::Null
+    }
+    fn resolve_ref(&self, reference: &Ref) -> Option<Dict> {
+        self.db.iter().find(|(k, _)| *k == reference.value).map(|(_, d)| d.clone())
+    }
+}
+
+/// worker side of filter.rel: a relationship term evaluated with the Project Haystack defs and a caller-supplied resolver
+pub fn worker_rel(req: &J) -> J {
+    static REAL_NS: std::sync::OnceLock<Option<libhaystack::defs::namespace::Namespace<'static>>> = std::sync::OnceLock::new();
+    let ns = REAL_NS.get_or_init(|| crate::ops_defs::real_defs_grid().ok().map(libhaystack::defs::namespace::Namespace::make));
+    let Some(ns) = ns.as_ref() else { return json!({"outcome":"err","msg":"defs.zinc not readable"}) };
+    let build = || -> Result<(Filter, Dict, Vec<(String, Dict)>), String> {
+        let text = text_of(&req["text"])?;
+        let rec = gamma_tags(&req["rec"])?;
+        let mut db = Vec::new();
+        for e in req["db"].as_array().ok_or("db")? {
+            db.push((text_of(&e[0])?, gamma_tags(&e[1])?));
+        }
+        Ok((Filter::try_from(text.as_str()).map_err(|e| e.to_string())?, rec, db))
+    };
+    match build() {
+        Err(m) => json!({"outcome":"err","msg":m}),
+        Ok((f, rec, db)) => {
+            let resolver = KeyedResolver { db };
+            let r = guarded(|| {
+                let ctx = EvalContext::make(&rec, ns, &resolver);
+                f.eval(&ctx)
+            });
+            json!({"outcome":"ok","truth":truth(r)})
+        }
+    }
+}
+
 /// worker side of filter.weq
 pub fn worker_weq(req: &J) -> J {
     let build = || -> Result<(Filter, Dict, Vec<Dict>), String> {
@@ -236,6 +280,20 @@ pub fn run(vec: &J, out: &mut Out, wk: &mut Worker) -> Result<(), String> {
                 }
             };
             out.emit(json!({"op":"filter.weq","rec":vec["rec"],"db":vec["db"],"path":vec["path"],"target":vec["target"],"text":vec["text"],"truth":t}));
+            Ok(())
+        }
+        "filter.rel" => {
+            static HANGS: std::sync::atomic::AtomicUsize = std::sync::atomic::AtomicUsize::new(0);
+            let limit = if HANGS.load(std::sync::atomic::Ordering::Relaxed) >= 3 { 1000 } else { 3000 };
+            let t = match wk.call(&json!({"w":"filter.rel","text":vec["text"],"rec":vec["rec"],"db":vec["db"]}), limit) {
+                Ok(r) if r["outcome"] == "ok" => r["truth"].clone(),
+                Ok(r) => return Err(format!("filter.rel vector not executable: {}", r["msg"])),
+                Err(f) => {
+                    HANGS.fetch_add(1, std::sync::atomic::Ordering::Relaxed);
+                    J::from(f)
+                }
+            };
+            out.emit(json!({"op":"filter.rel","rec":vec["rec"],"db":vec["db"],"text":vec["text"],"truth":t}));
             Ok(())
         }
         "filter.mutants" => {
